@@ -1012,6 +1012,11 @@ func checkQeTcbStatus(tcbLevels []pcs.TcbLevel, isvsvn uint32) error {
 }
 
 func readTcbInfoTcbStatus(tcbInfo pcs.TcbInfo, tdQuoteBody *pb.TDQuoteBody, pckCertExtensions *pcs.PckExtensions) (pcs.TcbLevel, error) {
+	// The matching below indexes TEE_TCB_SVN; callers such as
+	// SupportedTcbLevelsFromCollateral may hand in a quote that was not checked.
+	if size := len(tdQuoteBody.GetTeeTcbSvn()); size != abi.TeeTcbSvnSize {
+		return pcs.TcbLevel{}, fmt.Errorf("teeTcbSvn size is %d bytes. Expected %d bytes", size, abi.TeeTcbSvnSize)
+	}
 	tcbLevels := tcbInfo.TcbLevels
 	matchingTcbLevel, err := getMatchingTcbLevel(tcbLevels, tdQuoteBody, pckCertExtensions.TCB.PCESvn, pckCertExtensions.TCB.CPUSvnComponents)
 	if err != nil {
